@@ -613,7 +613,10 @@ def history_cases(algo):
     @st.composite
     def cases(draw):
         quick = gen.tier() == "quick"
-        bs = draw(st.sampled_from([2, 5] if quick else [1, 2, 3, 5, 8]))
+        # batch size 1 is rejected loudly by the continuous-control losses (shape assertions; C03 allows
+        # that), so it is in the domain of the DQN family only
+        sizes = [1, 2, 3, 5, 8] if algo in ("nature_dqn", "ddqn", "per") else [2, 3, 5, 8]
+        bs = draw(st.sampled_from([2, 5] if quick else sizes))
         k = draw(st.integers(1, 7))
         if algo == "mrq":
             # batch size and target_delay are static shapes of the encoder update: one compilation each
